@@ -127,16 +127,21 @@ Proof.
   unfold lo in Hq. nra.
 Qed.
 
+(* the error term does bound the tail: exp x <= S_n + F t_{n+1} from the first iteration on *)
+Definition tail_ok (F x : R) : Prop := forall n, (1 <= n)%nat -> exp x <= hi F x n.
+
+Lemma tail_ok_basic F x : 0 <= x -> 0 < F -> 3 <= F * (3 - x) -> tail_ok F x.
+Proof. intros Hx HF Hr n Hn. apply lost_exit_bound; assumption. Qed.
+
 Theorem lost_sound F bound cmp x :
-  (0 < F)%Z -> 0 <= QcR x -> 3 <= IZR F * (3 - QcR x) ->
+  0 <= QcR x -> tail_ok (IZR F) (QcR x) ->
   taylor F bound cmp x x (QcZ 1) 1 = Lost -> exp (QcR x) < QcR cmp.
 Proof.
-  intros HF Hx Hr Hl. destruct bound as [|b]; [discriminate|].
+  intros Hx Hr Hl. destruct bound as [|b]; [discriminate|].
   assert (C := run_char F b cmp x Hx). rewrite Hl in C.
   inversion C as [n Hn Hq Hbefore | |].
-  assert (HF' : 0 < IZR F) by (apply IZR_lt; exact HF).
-  assert (A := lost_exit_bound (IZR F) (QcR x) n Hx HF' Hr (proj1 Hn)).
-  unfold hi in Hq. clear - Hq A. lra.
+  assert (A := Hr n (proj1 Hn)).
+  clear - Hq A. lra.
 Qed.
 
 (* a lost answer names the iteration whose threshold q exceeded *)
@@ -152,17 +157,16 @@ Qed.
 (* reaching the cap: q is within F t_{B+1} of S_B, hence (where the tail bound holds)
    exp x - 2 F t_{B+1} <= q <= exp x + F t_{B+1} *)
 Theorem cap_band F b cmp x :
-  (0 < F)%Z -> 0 <= QcR x -> 3 <= IZR F * (3 - QcR x) ->
+  0 <= QcR x -> tail_ok (IZR F) (QcR x) ->
   taylor F (Datatypes.S b) cmp x x (QcZ 1) 1 = Cap ->
   - (2 * IZR F * t (QcR x) (Datatypes.S (Datatypes.S b))) <= QcR cmp - exp (QcR x)
     <= IZR F * t (QcR x) (Datatypes.S (Datatypes.S b)).
 Proof.
-  intros HF Hx Hr Hc.
+  intros Hx Hr Hc.
   assert (C := run_char F b cmp x Hx). rewrite Hc in C.
   inversion C as [| | Hall].
   destruct (Hall (Datatypes.S b) ltac:(lia)) as [H1 H2].
-  assert (HF' : 0 < IZR F) by (apply IZR_lt; exact HF).
-  assert (A := lost_exit_bound (IZR F) (QcR x) (Datatypes.S b) Hx HF' Hr ltac:(lia)).
+  assert (A := Hr (Datatypes.S b) ltac:(lia)).
   assert (B := exp_lower (QcR x) (Datatypes.S b) Hx).
   unfold hi, lo in *. clear - H1 H2 A B. lra.
 Qed.
